@@ -5,11 +5,12 @@ import RV.Drive.Angles
 import RV.Drive.Visibility
 import RV.Drive.Frames
 import RV.Drive.Time
+import RV.Drive.Events
 namespace RV.Drive
 open RV
 
 def handlers : List (String → Option (P String)) :=
-  [RV.Drive.Decisions.handle, RV.Drive.Detectors.handle, RV.Drive.Mmae.handle, RV.Drive.Angles.handle, RV.Drive.Visibility.handle, RV.Drive.Frames.handle, RV.Drive.Time.handle]
+  [RV.Drive.Decisions.handle, RV.Drive.Detectors.handle, RV.Drive.Mmae.handle, RV.Drive.Angles.handle, RV.Drive.Visibility.handle, RV.Drive.Frames.handle, RV.Drive.Time.handle, RV.Drive.Events.handle]
 
 def step (line : String) : String :=
   match tokens line with
